@@ -1452,4 +1452,10 @@ class OptionStore:
         potential_removed_keys = self.options.keys() - project_options.keys()
         for key in potential_removed_keys:
             if self.is_project_option(key) and key.subproject == subproject:
+                removed = self.options[key]
                 self.remove(key)
+                # An option that yields to the removed one has no parent any more.
+                for child in self.options.values():
+                    if child.parent is removed:
+                        child.parent = None
+                        child.yielding = False
